@@ -103,6 +103,9 @@ PROP = {'drive': ['Cff'], 'modules': ['SfntV.Props.C13'],
                  'the exact decimal modulo 360 (V cff.file.read on the written file) and the D predicate cff.file.rt2 evaluates the '
                  'convergence clause on the real code (Write, Read, Write, Read: the second round trip reproduces the first and the angle lies '
                  'in [-180,180))',
+                 'zero-length INDEX elements: D cff.index.rt on the real code (readIndex(encode x) = x; empty elements first, middle, last, all) and '
+                 'D cff.file.rtself (Write refuses or Read gives the font back) on fonts with an empty glyph name, an empty ROS registry / '
+                 'ordering and an empty FontName - the unchanged Write accepts all of them and Read returns them',
                  'encodings with 250..256 codes (contiguous, scrambled, partly ranged, range counts 1..256 around 127/128/129 and 255, '
                  'supplements) are a fixed boundary family: D cff.encoding.rt on the real code, V against the model, whole fonts with 255/256 '
                  'encoded glyphs; 256 glyphs in 256 ranges are refused by encodeEncoding (neither format can hold them), verdict only',
